@@ -1,5 +1,17 @@
 /-
 C19 — property theorems (only). Model: `HydroVerif/Model/C19.lean`.
+
+Clause of the property                                   | theorems                                              | outside the theorems
+---------------------------------------------------------|-------------------------------------------------------|---------------------
+batches contiguous and ordered                           | batch_eq_range', bstart_succ, bstart_zero, bstart_last | numpy.array_split itself (compared by result)
+pairwise disjoint, cover every element exactly once      | batches_partition, batches_disjoint, mem_batch_lt      | -
+sizes differ by at most one; none empty for k <= n        | bsize_diff_le_one, bsize_pos                           | -
+accepted / rejected calls (three guards, in code order)  | getBatch_ok, getBatch_rejects                          | exception types (by name in the correspondence)
+SiteBatch.search returns the batch containing the site   | search_correct, search_none                            | site ids are unique (a site = its position)
+every combination of option values exactly once          | product_length, mem_product, product_nodup, fromCartesian_task_keys, fromCartesian_task_values, fromCartesian_tasks_nodup, fromCartesian_ntasks | itertools.product (compared by result)
+scalars given bare                                       | fromCartesianArgs_bare, fromCartesianArgs_ntasks       | isinstance tests of the wrapper (correspondence: `!v` rows)
+equal in both directions after dictionary/JSON round trip| taskFromDict_taskToDict, fromDict_toDict, mEq_refl, roundtrip_eq_both, roundtrip_cartesian, roundtrip_fails_on_collision | json.dumps/loads (oracle on the real code); context values are opaque strings in the model
+find returns exactly the tasks whose option equals value | mem_find, find_cartesian, find_sorted, find_unknown_key | `re.search` on string forms (anchored literal = equality for the value alphabet of the quantifier)
 -/
 import HydroVerif.Model.C19
 import Mathlib.Data.List.Range
@@ -315,6 +327,142 @@ theorem roundtrip_fails_on_collision :
       { name := "m", context := [("a", "1")], options := [], tasks := [] }) = none := by
   decide
 
+
+/-! ### the property stated for a cartesian-product manager as a whole -/
+
+theorem lookup_zip_nodup (keys : List String) (c : List Val) (hn : keys.Nodup) (j : Nat) (hj : j < keys.length)
+    (hl : c.length = keys.length) (val : Val) :
+    (keys.zip c).lookup keys[j] = some val ↔ c[j]? = some val := by
+  induction keys generalizing c j with
+  | nil => simp at hj
+  | cons k ks ih =>
+    cases c with
+    | nil => simp at hl
+    | cons v vs =>
+      cases j with
+      | zero => simp [List.lookup_cons]
+      | succ j =>
+        have hne : (ks[j]'(by simpa using hj) == k) = false := by
+          have := (List.nodup_cons.mp hn).1
+          have hm : ks[j]'(by simpa using hj) ∈ ks := List.getElem_mem _
+          simp only [beq_eq_false_iff_ne, ne_eq]
+          intro h
+          exact this (h ▸ hm)
+        simp only [List.zip_cons_cons, List.getElem_cons_succ, List.lookup_cons, hne, List.getElem?_cons_succ]
+        exact ih vs (List.nodup_cons.mp hn).2 j (by simpa using hj) (by simpa using hl)
+
+
+theorem product_mem_length (ls : List (List Val)) (t : List Val) (h : t ∈ product ls) : t.length = ls.length :=
+  ((mem_product ls t).mp h).length_eq
+
+/-- every task of a cartesian-product manager has exactly the option names as keys, in insertion order -/
+theorem fromCartesian_task_keys (name : String) (ctx : Dict) (opts : List (String × List Val)) (t : Dict)
+    (h : t ∈ (fromCartesian name ctx opts).tasks) : t.map (·.1) = opts.map (·.1) := by
+  simp only [fromCartesian, List.mem_map] at h
+  obtain ⟨c, hc, rfl⟩ := h
+  have hl := product_mem_length _ _ hc
+  rw [List.map_fst_zip]
+  simp only [List.length_map] at hl ⊢
+  omega
+
+/-- ... and its values are a combination: the `j`-th value comes from the `j`-th option list -/
+theorem fromCartesian_task_values (name : String) (ctx : Dict) (opts : List (String × List Val)) (t : Dict) :
+    t ∈ (fromCartesian name ctx opts).tasks ↔
+      t.map (·.1) = opts.map (·.1) ∧ List.Forall₂ (fun v l => v ∈ l) (t.map (·.2)) (opts.map (·.2)) := by
+  constructor
+  · intro h
+    refine ⟨fromCartesian_task_keys name ctx opts t h, ?_⟩
+    simp only [fromCartesian, List.mem_map] at h
+    obtain ⟨c, hc, rfl⟩ := h
+    have hl := product_mem_length _ _ hc
+    rw [List.map_snd_zip]
+    · exact (mem_product _ _).mp hc
+    · simp only [List.length_map] at hl ⊢
+      omega
+  · rintro ⟨hk, hv⟩
+    simp only [fromCartesian, List.mem_map]
+    refine ⟨t.map (·.2), (mem_product _ _).mpr hv, ?_⟩
+    rw [← hk]
+    exact (List.zip_of_prod rfl rfl).symm
+
+/-- every combination of option values is a task exactly once (option value lists without repeats) -/
+theorem fromCartesian_tasks_nodup (name : String) (ctx : Dict) (opts : List (String × List Val))
+    (h : ∀ kv ∈ opts, kv.2.Nodup) : (fromCartesian name ctx opts).tasks.Nodup := by
+  simp only [fromCartesian]
+  refine (product_nodup _ ?_).map_on ?_
+  · intro l hl
+    obtain ⟨kv, hkv, rfl⟩ := List.mem_map.mp hl
+    exact h kv hkv
+  · intro a ha b hb hab
+    have la := product_mem_length _ _ ha
+    have lb := product_mem_length _ _ hb
+    have := congrArg (List.map (·.2)) hab
+    rwa [List.map_snd_zip, List.map_snd_zip] at this
+    · simp only [List.length_map] at lb ⊢; omega
+    · simp only [List.length_map] at la ⊢; omega
+
+/-- `find` answers with an increasing list of task numbers -/
+theorem find_sorted (m : Manager) (key : String) (val : Val) (l : List Nat) (h : find m key val = some l) :
+    l.Pairwise (· < ·) := by
+  unfold find at h
+  split at h
+  · cases h
+  · cases h
+    exact List.Pairwise.filter _ List.pairwise_lt_range
+
+/-- the round trip for a cartesian-product manager: unique option names and unique context keys (python
+dictionaries) are all that is needed, for any number of options and values and any non-colliding key names -/
+theorem roundtrip_cartesian (kn : KeyNames) (hk : kn.ok) (name : String) (ctx : Dict)
+    (opts : List (String × List Val)) (hc : (ctx.map (·.1)).Nodup) (ho : (opts.map (·.1)).Nodup) :
+    ∃ m', fromDict kn (toDict kn (fromCartesian name ctx opts)) = some m' ∧
+      mEq (fromCartesian name ctx opts) m' = true ∧ mEq m' (fromCartesian name ctx opts) = true := by
+  refine roundtrip_eq_both kn hk _ hc ho ?_
+  intro t ht
+  rw [fromCartesian_task_keys name ctx opts t ht]
+  exact ho
+
+/-- `find(key = val)` on a cartesian-product manager returns exactly the numbers of the combinations whose
+component for `key` equals `val` (position `j` of `key` among the option names) -/
+theorem find_cartesian (name : String) (ctx : Dict) (opts : List (String × List Val))
+    (ho : (opts.map (·.1)).Nodup) (j : Nat) (hj : j < opts.length) (val : Val) (i : Nat) :
+    ∃ l, find (fromCartesian name ctx opts) (opts[j]).1 val = some l ∧
+      (i ∈ l ↔ ∃ c, (product (opts.map (·.2)))[i]? = some c ∧ c[j]? = some val) := by
+  have hkey : ((fromCartesian name ctx opts).options.lookup (opts[j]).1).isSome := by
+    simp only [fromCartesian]
+    rw [List.lookup_isSome_iff]
+    exact ⟨opts[j], List.getElem_mem hj, by simp⟩
+  obtain ⟨l, hl, hmem⟩ := mem_find (fromCartesian name ctx opts) (opts[j]).1 val hkey i
+  refine ⟨l, hl, hmem.trans ?_⟩
+  have hj' : j < (opts.map (·.1)).length := by simpa using hj
+  have hkj : (opts.map (·.1))[j] = (opts[j]).1 := by simp
+  have key : ∀ c : List Val, c.length = opts.length →
+      (((opts.map (·.1)).zip c).lookup (opts[j]).1 = some val ↔ c[j]? = some val) := by
+    intro c hlen
+    rw [← hkj]
+    exact lookup_zip_nodup _ c ho j hj' (by simpa using hlen) val
+  simp only [fromCartesian, List.getElem?_map]
+  constructor
+  · rintro ⟨t, ht, hv⟩
+    cases hc : (product (opts.map (·.2)))[i]? with
+    | none => simp [hc] at ht
+    | some c =>
+      simp only [hc, Option.map_some, Option.some.injEq] at ht
+      subst ht
+      have hlen := product_mem_length _ _ (List.mem_of_getElem? hc)
+      exact ⟨c, rfl, (key c (by simpa using hlen)).mp hv⟩
+  · rintro ⟨c, hc, hv⟩
+    have hlen := product_mem_length _ _ (List.mem_of_getElem? hc)
+    exact ⟨_, by simp only [hc, Option.map_some], (key c (by simpa using hlen)).mpr hv⟩
+
+/-- a scalar given bare is the one-value list: it multiplies the number of tasks by one and every task carries it -/
+theorem fromCartesianArgs_bare (name : String) (ctx : Dict) (pre post : List (String × OptArg)) (k : String) (v : Val) :
+    fromCartesianArgs name ctx (pre ++ (k, .bare v) :: post) = fromCartesianArgs name ctx (pre ++ (k, .many [v]) :: post) := by
+  simp [fromCartesianArgs, OptArg.toList]
+
+theorem fromCartesianArgs_ntasks (name : String) (ctx : Dict) (opts : List (String × OptArg)) :
+    (fromCartesianArgs name ctx opts).tasks.length = (opts.map fun kv => kv.2.toList.length).prod := by
+  simp [fromCartesianArgs, fromCartesian_ntasks, Function.comp_def]
+
 /-! ### non-vacuity: the hypotheses are met by concrete inputs, and sample evaluations -/
 
 example : batch 20 5 1 = [4, 5, 6, 7] := by decide
@@ -323,5 +471,9 @@ example : search 10 3 7 = some 2 := by decide
 example : (⟨"ctx", "opts", "mopts"⟩ : KeyNames).ok := by decide
 example : (⟨"context", "options", "options"⟩ : KeyNames).ok := by decide
 example : (product [["1","2"],["a","b","c"]]).length = 6 := by decide
+example : find (fromCartesian "m" [] [("a", ["1","2"]), ("b", ["x","y","1"])]) "b" "1" = some [2, 5] := by decide
+example : (fromCartesianArgs "m" [] [("a", .many ["1","2"]), ("b", .bare "solo")]).tasks
+    = [[("a","1"),("b","solo")], [("a","2"),("b","solo")]] := by decide
+example : (["a","b"].map id).Nodup ∧ (1 : Nat) < [("a", ["1","2"]), ("b", ["x","y","1"])].length := by decide
 
 end HydroVerif.C19
